@@ -21,6 +21,19 @@ All prices/sizes are plain floats here (the harness keeps them on the decimal gr
 """
 import os, sys, json, tempfile, shutil, logging, datetime, collections, traceback
 logging.disable(logging.CRITICAL)
+if os.environ.get("VERIF_WALL"):
+    # a fake WALL clock installed before flumine is imported (C14: the outcome of a simulation does not depend on it): "frozen" never moves,
+    # "fast" jumps 25 minutes at every reading.  The simulation's own clock replaces datetime.datetime during a run and is not affected.
+    _real_dt = datetime.datetime
+    _wall = {"n": 0, "mode": os.environ["VERIF_WALL"], "base": _real_dt(2030, 1, 1, 10, 10, 0)}
+    class WallClock(_real_dt):
+        @classmethod
+        def utcnow(cls):
+            if _wall["mode"] == "fast":
+                _wall["n"] += 1
+                return _wall["base"] + datetime.timedelta(minutes=25 * _wall["n"])
+            return _wall["base"]
+    datetime.datetime = WallClock
 from flumine import FlumineSimulation, clients, config
 from flumine.strategy.strategy import BaseStrategy
 from flumine.order.trade import Trade
@@ -329,7 +342,16 @@ def run_scenario(sc, observe="all"):
                             kw = dict(market_version=opt.get("mv"), force=opt.get("force", False))
                             if txn is None:
                                 kw["client"] = cls[self.spec.get("client", 0)]
-                            res = tgt.place_order(o, **kw)
+                            if opt.get("trade_block"):
+                                # the strategy wrote `with trade:` around its placement; with "raise" its own code fails inside the block after the
+                                # placement (the framework logs the exception of the callback and carries on)
+                                with tr:
+                                    res = tgt.place_order(o, **kw)
+                                    if opt["trade_block"] == "raise":
+                                        rec.requests.append([self.idx, mi, u, a[0], a[1], res, extra])
+                                        raise ValueError("scripted error inside `with trade:`")
+                            else:
+                                res = tgt.place_order(o, **kw)
                             if res is False:
                                 extra["violation_msg"] = getattr(o, "violation_msg", None)
                         elif a[0] == "place_again":
